@@ -148,7 +148,7 @@ class eap(packet_base):
     def __str__(self):
         s = '[EAP %s id=%d' % (eap.code_name(self.code), self.id)
         if hasattr(self, 'type'):
-            s += ' type=%s' % (eap.type_names[self.type],)
+            s += ' type=%s' % (eap.type_name(self.type),)
         return s + "]"
 
     def parse(self, raw):
@@ -166,7 +166,11 @@ class eap(packet_base):
         self.payload_len = 0
         self.parsed = True
 
-        if self.code == self.REQUEST_CODE:
+        if self.code in (self.REQUEST_CODE, self.RESPONSE_CODE) \
+           and dlen < self.MIN_LEN + 1:
+            self.msg('(eapol parse) warning EAP request/response without type')
+            self.parsed = False
+        elif self.code == self.REQUEST_CODE:
             (self.type,) \
                 = struct.unpack('!B', raw[self.MIN_LEN:self.MIN_LEN + 1 ])
             # not yet implemented
